@@ -38,13 +38,13 @@ CHECKS = {
         ref="6/C05",
     ),
     "C06": dict(
-        text="Step: on every feasible bisection path of the real determine_beta over all populations (N<=3/4), symbolic target efficiency (scalar / ramp) and the three min-step modes: no exception, beta_prev < beta' <= 1, floor honoured, rescaled min_step valid. Fixed schedule: n_steps is a symbolic bit-vector, 1/n an FP division, the real (logging-stripped) sample() loop runs in Float64 and the solver shows exactly n iterations ending at exactly 1.0 for every n in the bound. Whole runs (loop harness) incl. non-degenerate adaptive N=2 runs (target 0.75), a binding step cap, and runs interrupted and resumed from the serialised payload and from the live dictionary: ladder strictly increasing in (0,1], ends at exactly 1 (or at the cap), fixed schedules perform exactly n iterations, the interrupted and the resumed part together move the population exactly as often as the uninterrupted run.",
+        text="Step: on every feasible bisection path of the real determine_beta over all populations (N<=3), symbolic target efficiency (scalar / ramp) and the three min-step modes: no exception, beta_prev < beta' <= 1, floor honoured, rescaled min_step valid. Fixed schedule: n_steps is a symbolic bit-vector, 1/n an FP division, the real (logging-stripped) sample() loop runs in Float64 and the solver shows exactly n iterations ending at exactly 1.0 for every n in the bound. Whole runs (loop harness) incl. non-degenerate adaptive N=2 runs (target 0.75), a binding step cap, and runs interrupted and resumed from the serialised payload and from the live dictionary: ladder strictly increasing in (0,1], ends at exactly 1 (or at the cap), fixed schedules perform exactly n iterations, the interrupted and the resumed part together move the population exactly as often as the uninterrupted run.",
         note="Temperatures/tolerance concrete dyadic (beta_prev in {0, 1/2, 3/4}: the last makes the floor beta_prev + min_step exceed 1); n_steps <= 12 (quick) / 52 (thorough); population stubbed out in the fixed-schedule harness (ladder independent of it when adaptive=False); known finding C06-D4 (beta stuck with min_step=0) listed in known_findings.json.",
         ref="6/C06",
     ),
     "C07": dict(
-        text="On every feasible bisection path of the real determine_beta: the chosen temperature meets the ESS target in force at the current temperature (spec-side ESS written independently over exp atoms), some probe within the tolerance above it fails the target (maximality), a full step that meets the target is taken, and floor-forced steps are exactly the floor; for all populations, symbolic scalar/ramped targets, tolerance 1/4 (1/8 thorough); also after histories of the public target_efficiency setter on one sampler object (ramp then scalar, scalar then ramp, three settings in a row): the target in force is the last one set.",
-        note="Temperatures and tolerance concrete dyadic rationals; symbolic targets written to the sampler's private fields (the public setter is exercised with floats); N<=3 quick, N<=4 thorough.",
+        text="On every feasible bisection path of the real determine_beta: the chosen temperature meets the ESS target in force at the current temperature (spec-side ESS written independently over exp atoms), some probe within the tolerance above it fails the target (maximality), a full step that meets the target is taken, and floor-forced steps are exactly the floor; for all populations, symbolic scalar/ramped targets, tolerance 1/4 (thorough: also 1/8 for N=2, and for N=3 from beta_prev=1/2 with the step cap); also after histories of the public target_efficiency setter on one sampler object (ramp then scalar, scalar then ramp, three settings in a row): the target in force is the last one set.",
+        note="Temperatures and tolerance concrete dyadic rationals; symbolic targets written to the sampler's private fields (the public setter is exercised with floats); N<=3 (N=4 and N=3 with tolerance 1/8 from beta_prev=0 did not finish in 40 minutes and are not claimed).",
         ref="6/C07",
     ),
     "C08": dict(
